@@ -13,7 +13,8 @@ BASE = dict(Gaps=[0, 3, 30], Durs=[0, 2, 7], T=5, P=20, MaxInv=4)
 
 
 class Err(Exception):
-    pass
+    def __bool__(self):
+        return False    # exceptions are user objects too: nothing may decide by their truthiness
 
 
 class StackDriver:
